@@ -37,7 +37,9 @@ def content(kind, rnd):
         d = rnd.choice([1500, 3000])
         return (b"@media screen {" * d) + b".a{color:#777777;background-color:#ffffff}" + (b"}" * d) + b"\n"
     if kind == "undecodable":
-        return b"\xff\xfe\xfa .a{color:#777777}\n" if rnd.random() < 0.5 else ".a{color:#777}".encode("utf-16")
+        # invalid UTF-8 at the start / UTF-16 / a file that is fine until it ENDS in the middle of a multi-byte character
+        return rnd.choice([b"\xff\xfe\xfa .a{color:#777777}\n", ".a{color:#777}".encode("utf-16"), b".a{color:#777777} /* caf\xc3\xa9 \xe2\x82",
+                           b".b{color:#5c5c5c;background-color:#ffffff}\n/* \xf0\x9f\x8d"])
     if kind == "unserialisable":
         # a declaration tinycss2 cannot parse next to a colour that needs fixing in EVERY setting (#777 without --premium,
         # #5c5c5c with it; explicit white background): re-serialising the modified rule fails
